@@ -551,6 +551,12 @@ fn failing_streaks(invariants_mode: bool, rep: &mut Report) {
         ];
         for (fi, (fop, fpos, fsym)) in failures.iter().enumerate() {
             let mut sess = Session::new(3, 2, 5).with_error_flavour((k + fi) as u8);
+            // every other streak runs over a bus that drives another sign (a whole controller call of its own) while it
+            // handles each message: the outer call's bounds are its own
+            if (k + fi) % 2 == 1 {
+                sess = sess.with_relay();
+                rep.count("failing_streaks_over_a_relaying_bus");
+            }
             let mut ok = true;
             for i in 0..k + 4 {
                 let failing = i < k;
@@ -641,6 +647,11 @@ fn random_conversation(ctx: &Ctx, rng: &mut Rng, invariants_mode: bool, rep: &mu
     let flavour = rng.below(u64::from(crate::doubles::N_BUS_ERROR_FLAVOURS)) as u8;
     rep.seen("bus_error_flavours", u64::from(flavour));
     let mut sess = Session::new(own, foreign, ty).with_error_flavour(flavour);
+    // one conversation in six runs over a bus that drives another sign of its own while it handles each message
+    if rng.chance(1, 6) {
+        sess = sess.with_relay();
+        rep.count("conversations_over_a_relaying_bus");
+    }
     if rng.chance(1, 2) {
         for _ in 0..1 + rng.usize(3) {
             let op0 = OPS_ALL[rng.usize(6)].clone();
@@ -757,6 +768,7 @@ pub fn run(ctx: &Ctx, invariants_mode: bool) -> Outcome {
         floor("every DFS subtree enumerated to its end", report.get("dfs_subtrees_completed") == nj as u64, report.get("dfs_subtrees_completed")),
         floor("every canned earlier call performed, then every operation enumerated on the same Sign object", report.set_len("preludes_performed") >= PRELUDES.len() as u64 && report.get("conversations_with_a_reused_sign_object") > 100_000, format!("{} preludes, {} conversations", report.set_len("preludes_performed"), report.get("conversations_with_a_reused_sign_object"))),
         floor("bus errors of every kind (custom, io::Error Interrupted / TimedOut / WouldBlock, wrapped io::Error, FrameError around an io::Error, a relayed SignError of either variant)", report.set_len("bus_error_flavours") == 10, report.set_len("bus_error_flavours")),
+        floor("conversations over a bus that makes controller calls of its own (to another sign) while it handles each message: half of the failing streaks, a sixth of the random conversations", report.get("failing_streaks_over_a_relaying_bus") == 42 && report.get("conversations_over_a_relaying_bus") > 100, format!("{} / {}", report.get("failing_streaks_over_a_relaying_bus"), report.get("conversations_over_a_relaying_bus"))),
         floor("calls that fail exactly k times in a row on one Sign object, then ordinary calls (14 counts x 6 kinds of failure)", report.get("failing_streaks_followed_by_ordinary_calls") == 84, report.get("failing_streaks_followed_by_ordinary_calls")),
         floor("page flips that are polled 10 .. 70 000 times before they complete", report.get("long_polls_that_ended_in_success") == 28, report.get("long_polls_that_ended_in_success")),
         floor("one Sign object used for 70 000 calls", report.get("marathon_calls_on_one_sign_object") == 70_000, report.get("marathon_calls_on_one_sign_object")),
